@@ -2,6 +2,7 @@ import Py4hwV.Proofs.C01FlatInst
 import Py4hwV.Proofs.C01FlatStore
 import Py4hwV.Proofs.C01FlatShip
 import Py4hwV.Proofs.C01FlatIR
+import Py4hwV.Proofs.C01FlatCheck
 /-
   C01, design level — FLAT designs: one module whose items are continuous assigns of the inline forms proved in
   Props/C01.lean over declared nets, plus flattened `Reg` instances (`reg rq = RV`, the always block of `C01.regBody`,
@@ -207,14 +208,58 @@ theorem shipped_powerup (F : FlatDesign) (hF : F.WF) (as : List (LHS × Expr)) (
     m0.settle.errors = m0.errors ∧
     ∀ k, k ∈ F.nets →
       m0.settle.st.rd.val (F.nm k) = ⟨F.wd k, (initC F.netD.design F.netD.st0 F.netD.cons).val k, true⟩ := by
-  have hC := FlatDesign.cycOK hF as hp m0.st.rd.info hinv.clkdecl
+  have hC := hinv.cyc hF hp
   have hl : ∀ a, a ∈ m0.flat.assigns → LhsOk m0.st.rd a.1 := by
-    rw [hinv.flat]; exact (FlatDesign.infoOK hF as hp m0.st.rd hinv.declared).lhs
-  have hs := sim_settle_rd m0 (by rw [hinv.flat]; exact hC.nostar) (topo := F.topo) (by rw [hinv.flat]; exact hC.perm) hC.acyc hl
+    rw [hinv.fassigns]; exact (FlatDesign.infoOK hF as hp m0.st.rd hinv.declared).lhs
+  have hs := sim_settle_rd m0 hC.nostar (topo := F.topo) hC.perm hC.acyc hl
   refine ⟨hs.2.1, ?_⟩
   intro k hk
-  rw [hs.1, hinv.flat]
+  rw [hs.1, hinv.fassigns]
   exact (flat_powerup F hF as hp m0.st.rd h0).2 k hk
+
+/-! ## the emitted TEXT: elaboration by `V.flatten` / `V.mkSim` -/
+
+/-- **elaboration** (`mkSim_shipInv`): for an imported description `S` that passes the executable check, `V.mkSim` of the module
+    list `S.emit` (= the parsed real text, checked per design by the harness with decidable equality) runs a permutation of
+    the design's assigns and its register bodies, declares every signal, holds `rq = reset_value`, has the clocks high
+    and logged no error -/
+theorem mkSim_shipInv (S : FlatSrc) (h : S.check = true) :
+    S.flatS.assigns.Perm S.design.assigns ∧
+    FlatDesign.ShipInv S.design S.flatS.assigns (mkSim S.emit S.top S.clk) ∧
+    (mkSim S.emit S.top S.clk).errors = [] ∧
+    (∀ R, R ∈ S.design.regs → (mkSim S.emit S.top S.clk).st.rd.val R.rq =
+      ⟨S.design.wd R.leaf.q, R.leaf.rv % 2 ^ S.design.wd R.leaf.q, true⟩) :=
+  S.mkSim_inv (S.check_sound h)
+
+/-- the check implies the well-formedness hypothesis of all the design-level theorems -/
+theorem check_wf (S : FlatSrc) (h : S.check = true) : S.design.WF := (S.check_sound h).wf
+
+/-- **C01 on the parsed real text of a flat design.**  `mkSim` the module list, drive every input with 0 (the harness
+    protocol), then apply ANY covered history with the driver's `set` / `step`: no error is ever logged and after every
+    `step` every net — every top-level output — reads the value of the py4hw simulator (`Net.runC` with the GENERATED leaf
+    functions), known.  No behavioural assumption remains between the text and the theorem: the harness checks
+    `parsed text = S.emit` and `S.check` per design. -/
+theorem text_run (S : FlatSrc) (h : S.check = true) (ops : List Op) (hops : ∀ op, op ∈ ops → S.design.OpOK op) (n : Nat) :
+    ((S.zeroOps ++ (ops ++ [Op.clk (n + 1)])).foldl S.design.shipOp (mkSim S.emit S.top S.clk)).errors = [] ∧
+    ∀ k, k ∈ S.design.nets →
+      ((S.zeroOps ++ (ops ++ [Op.clk (n + 1)])).foldl S.design.shipOp (mkSim S.emit S.top S.clk)).st.rd.val (S.nm k) =
+        ⟨S.wd k, (runC S.design.netD.design S.design.netD.st0 S.design.netD.cons (ops ++ [Op.clk (n + 1)])).val k, true⟩ := by
+  have hOK := S.check_sound h
+  obtain ⟨hp, hinv, h0, herr⟩ := S.text_state hOK
+  rw [List.foldl_append]
+  have := shipped_run S.design hOK.wf _ hp _ hinv h0 ops hops n
+  exact ⟨this.1.trans herr, this.2⟩
+
+/-- the first observation of the protocol (`settle`, read): power-up values agree -/
+theorem text_powerup (S : FlatSrc) (h : S.check = true) :
+    (S.zeroOps.foldl S.design.shipOp (mkSim S.emit S.top S.clk)).settle.errors = [] ∧
+    ∀ k, k ∈ S.design.nets →
+      (S.zeroOps.foldl S.design.shipOp (mkSim S.emit S.top S.clk)).settle.st.rd.val (S.nm k) =
+        ⟨S.wd k, (initC S.design.netD.design S.design.netD.st0 S.design.netD.cons).val k, true⟩ := by
+  have hOK := S.check_sound h
+  obtain ⟨hp, hinv, h0, herr⟩ := S.text_state hOK
+  have := shipped_powerup S.design hOK.wf _ hp _ hinv h0
+  exact ⟨this.1.trans herr, this.2⟩
 
 end C01Flat
 
@@ -323,5 +368,60 @@ example (ops : List Op) (hops : ∀ op, op ∈ ops → exF.OpOK op) (n : Nat) :
       ⟨4, (runC exF.netD.design exF.netD.st0 exF.netD.cons (ops ++ [Op.clk (n + 1)])).val 4, true⟩ :=
   (shipped_run exF exF_wf exF.assigns (List.Perm.refl _) _ (shipped_state_exists exF exF_wf _).1
     (shipped_state_exists exF exF_wf _).2 ops hops n).2 4 (by decide)
+
+/-! ### non-vacuity of the text theorems: a real emitted text (two registers, one with enable and reset) -/
+
+/-- the description imported from the live py4hw design (harness exporter), children in instantiation order -/
+def exS : FlatSrc :=
+  { top := "Top", clk := "clk",
+    widths := [4, 4, 2, 1, 1, 4, 4, 4, 4, 3, 4],
+    names := ["a", "b", "s", "e", "r", "q", "z", "q2", "w_x", "w_c", "w_y"],
+    inputs := [0, 1, 2, 3, 4], outputs := [5, 6, 7], locals := [10, 9, 8],
+    children := [.prim (.and2 0 1 8), .prim (.const 5 9), .prim (.mux2 2 8 5 10),
+      .reg ⟨"i_r", "Reg4_v3", ⟨false, false, 3, 10, 0, 0, 5⟩⟩, .reg ⟨"i_r2", "Reg4RE", ⟨true, true, 0, 8, 3, 4, 7⟩⟩,
+      .prim (.not1 5 6)],
+    order := [0, 1, 2, 3] }
+
+/-- the module list harness/vparse.py reads from the text the REAL generator wrote for that design -/
+def exText : V.Design :=
+  [{ name := "Top", params := [],
+     ports := [{ dir := .inp, isReg := false, width := 1, name := "clk" }, { dir := .inp, isReg := false, width := 4, name := "a" },
+       { dir := .inp, isReg := false, width := 4, name := "b" }, { dir := .inp, isReg := false, width := 2, name := "s" },
+       { dir := .inp, isReg := false, width := 1, name := "e" }, { dir := .inp, isReg := false, width := 1, name := "r" },
+       { dir := .out, isReg := false, width := 4, name := "q" }, { dir := .out, isReg := false, width := 4, name := "z" },
+       { dir := .out, isReg := false, width := 4, name := "q2" }],
+     items := [.wire "w_y" 4, .wire "w_c" 3, .wire "w_x" 4,
+       .assign (.lid "w_x") (.bin "and" (.id "a") (.id "b")),
+       .assign (.lrng "w_c" 2 0) (.num none true 5 true),
+       .assign (.lid "w_y") (.tern (.bin "and" (.id "s") (.num none true 1 true)) (.id "q") (.id "w_x")),
+       .inst "Reg4_v3" "i_r" [] [("clk", .id "clk"), ("d", .id "w_y"), ("q", .id "q")],
+       .inst "Reg4RE" "i_r2" [] [("clk", .id "clk"), ("d", .id "w_x"), ("e", .id "e"), ("r", .id "r"), ("q", .id "q2")],
+       .assign (.lid "z") (.un "not" (.id "q"))] },
+   { name := "Reg4_v3", params := [],
+     ports := [{ dir := .inp, isReg := false, width := 1, name := "clk" }, { dir := .inp, isReg := false, width := 4, name := "d" },
+       { dir := .out, isReg := false, width := 4, name := "q" }],
+     items := [.reg "rq" 4 (some (.num none true 3 true)), .always (.pos "clk") (.nba (.lid "rq") (.id "d")),
+       .assign (.lid "q") (.id "rq")] },
+   { name := "Reg4RE", params := [],
+     ports := [{ dir := .inp, isReg := false, width := 1, name := "clk" }, { dir := .inp, isReg := false, width := 4, name := "d" },
+       { dir := .inp, isReg := false, width := 1, name := "e" }, { dir := .inp, isReg := false, width := 1, name := "r" },
+       { dir := .out, isReg := false, width := 4, name := "q" }],
+     items := [.reg "rq" 4 (some (.num none true 0 true)),
+       .always (.pos "clk") (.ife (.bin "eq" (.id "r") (.num none true 1 true)) (.nba (.lid "rq") (.num none true 0 true))
+         (.ife (.bin "ne" (.id "e") (.num none true 0 true)) (.nba (.lid "rq") (.id "d")) .skip)),
+       .assign (.lid "q") (.id "rq")] }]
+
+/-- the parsed real text IS the model's emission (what the harness checks per design) … -/
+theorem exS_text : exText = exS.emit := by decide
+
+/-- … and the description passes the executable check -/
+theorem exS_check : exS.check = true := by decide
+
+/-- so C01 holds of that text: after the protocol's zeroing of the inputs, any covered history, at every clock, output `q2` -/
+example (ops : List Op) (hops : ∀ op, op ∈ ops → exS.design.OpOK op) (n : Nat) :
+    ((exS.zeroOps ++ (ops ++ [Op.clk (n + 1)])).foldl exS.design.shipOp (mkSim exText "Top" "clk")).st.rd.val "q2" =
+      ⟨4, (runC exS.design.netD.design exS.design.netD.st0 exS.design.netD.cons (ops ++ [Op.clk (n + 1)])).val 7, true⟩ := by
+  rw [exS_text]
+  exact (text_run exS exS_check ops hops n).2 7 (by decide)
 
 end C01Flat
